@@ -152,7 +152,7 @@ func runC07(c *Check, a *Analysis) {
 	}
 
 	// ---- (2) code header order and threshold
-	c.Rule("R-CODE-ORDER", "code header: field emission order in Marshal = consumption order in Unmarshal = documented order; the short/long length threshold is the same constant on both sides", 4)
+	c.Rule("R-CODE-ORDER", "code header: field emission order in Marshal = consumption order in Unmarshal = documented order; the short/long length threshold is the same constant on both sides and is the documented varint boundary 127", 4)
 	for _, st := range []string{"request", "response"} {
 		w := p.Fn("(*" + st + ").Marshal")
 		r := p.Fn("(*" + st + ").Unmarshal")
@@ -169,6 +169,10 @@ func runC07(c *Check, a *Analysis) {
 		rth := thresholds(p, r, st, true)
 		okT := len(wth) > 0 && reflect.DeepEqual(wth, rth)
 		c.Ob("R-CODE-ORDER", sc.key(r, "length thresholds agree"), r.Pos(), okT, ifs(!okT, fmt.Sprintf("writer thresholds %v, reader thresholds %v", wth, rth)))
+		// documented format: a length is a varint, so exactly the lengths 1..127 fit in one byte
+		thSpec := []int64{0, 127}
+		okS := reflect.DeepEqual(wth, thSpec) && reflect.DeepEqual(rth, thSpec)
+		c.Ob("R-CODE-ORDER", sc.key(r, "length thresholds = documented varint boundary"), r.Pos(), okS, ifs(!okS, fmt.Sprintf("single-byte length threshold is writer %v / reader %v, the documented varint format requires %v (a length of 128 must be written as 0x80 0x01)", wth, rth, thSpec)))
 	}
 
 	// ---- (3) json tags
@@ -304,6 +308,96 @@ func runC07(c *Check, a *Analysis) {
 		c.Ob("R-SIZE-BOUND", sc.key(fn, "size >= per-field bound"), fn.Pos(), ok, ifs(!ok, fmt.Sprintf("size computation reserves constant %d (need >= %d) and len() terms %v (need each of %v): the encoder can write past the sized buffer at a varint boundary", total, want, lens, ss.fields)))
 	}
 	ruleResliceGuard(c, a, "R-RESLICE-GUARD", 6)
+
+	// ---- (5b) the encoded bytes handed on are exactly the n bytes MarshalTo reported
+	c.Rule("R-MARSHAL-LEN", "wherever a buffer filled by MarshalTo is returned or written to the wire it is resliced to the byte count MarshalTo returned (buf[:n])", 4)
+	for _, fn := range p.Fns {
+		eachInstr(fn, func(in ssa.Instruction) {
+			cc, ok := in.(*ssa.Call)
+			if !ok {
+				return
+			}
+			n := calleeName(cc)
+			if !strings.HasSuffix(n, ".MarshalTo") {
+				return
+			}
+			args := cc.Common().Args
+			buf := p.canon(args[len(args)-1])
+			rootOf := func(v ssa.Value) ssa.Value {
+				for i := 0; i < 6; i++ {
+					v = p.canon(v)
+					if sl, ok := v.(*ssa.Slice); ok {
+						v = sl.X
+						continue
+					}
+					break
+				}
+				return v
+			}
+			bufRoot := rootOf(buf)
+			goodSlice := func(v ssa.Value) bool {
+				sl, ok := p.canon(v).(*ssa.Slice)
+				if !ok || sl.High == nil {
+					return false
+				}
+				e, ok := p.canon(sl.High).(*ssa.Extract)
+				return ok && e.Tuple == ssa.Value(cc) && e.Index == 0
+			}
+			check := func(v ssa.Value, at ssa.Instruction, what string) {
+				for _, o := range p.origins(v) {
+					if rootOf(o) != bufRoot {
+						continue
+					}
+					ok := goodSlice(o)
+					c.Ob("R-MARSHAL-LEN", sc.key(fn, what+" is buf[:n]"), p.InstrPos(at), ok, ifs(!ok, "the whole conservatively sized buffer is handed on instead of the n bytes MarshalTo wrote: trailing zero bytes follow the header (invalid protobuf; output depends on the scratch buffer)"))
+				}
+			}
+			eachInstr(fn, func(x ssa.Instruction) {
+				if !p.canReach(in, x, nil) {
+					return
+				}
+				switch y := x.(type) {
+				case *ssa.Return:
+					for _, r := range y.Results {
+						if isByteSlice(r.Type()) {
+							check(r, x, "returned slice")
+						}
+					}
+				case *ssa.Call:
+					if calleeName(y) == "invoke socket.Messages.WriteMessage" {
+						check(y.Common().Args[0], x, "written frame")
+					}
+				}
+			})
+		})
+	}
+
+	for _, st := range []string{"request", "response"} {
+		fn := p.Fn("(*" + st + ").Marshal")
+		if fn == nil {
+			continue
+		}
+		// the size the buffer was grown to
+		var grown ssa.Value
+		eachInstr(fn, func(in ssa.Instruction) {
+			if sl, ok := in.(*ssa.Slice); ok && sl.Low == nil && sl.High != nil {
+				if _, isP := p.canon(sl.X).(*ssa.Parameter); isP {
+					grown = p.canon(sl.High)
+				}
+			}
+		})
+		eachInstr(fn, func(in ssa.Instruction) {
+			r, ok := in.(*ssa.Return)
+			if !ok || len(r.Results) < 1 {
+				return
+			}
+			for _, o := range p.origins(r.Results[0]) {
+				sl, isS := p.canon(o).(*ssa.Slice)
+				ok := isS && sl.High != nil && p.canon(sl.High) != grown
+				c.Ob("R-MARSHAL-LEN", sc.key(fn, "returned slice is buf[:offset]"), p.InstrPos(in), ok, ifs(!ok, "the code header Marshal returns the whole sized buffer instead of the bytes written (buf[:offset])"))
+			}
+		})
+	}
 
 	// ---- (6) encoder/codec interface agreement
 	c.Rule("R-ENCODER-IFACE", "for every Encoder in the package, the dynamic types returned by NewRequest/NewResponse implement the interface that the codec returned by NewCodec type-asserts", 3)
